@@ -226,3 +226,69 @@ func LoopBlocks(fn *ssa.Function) [][]*ssa.BasicBlock {
 	}
 	return out
 }
+
+// AnyOfEdgesWhere returns the edges on which a disjunction of relations holds every member of which satisfies pred:
+// the comparison itself, or a boolean assembled from such comparisons by short-circuit "or" (blank := c == ' ' ||
+// c == '\t'; if blank) or by assignments under such comparisons (blank := false; if c == ' ' { blank = true }).
+// Unlike EdgesWhere, which asks for one atom the edge implies (a conjunct), this asks that whichever way the
+// condition came to hold, a relation satisfying pred holds.
+func AnyOfEdgesWhere(fn *ssa.Function, pred func(r Rel) bool) map[Edge]bool {
+	out := map[Edge]bool{}
+	for _, e := range IfEdges(fn) {
+		ifi := BlockIf(e.From)
+		if ifi != nil && impliesSome(ifi.Cond, e.Succ == 0, pred, 0) {
+			out[e] = true
+		}
+	}
+	return out
+}
+
+func impliesSome(v ssa.Value, want bool, pred func(Rel) bool, depth int) bool {
+	v, neg := CondPolarity(v)
+	if neg {
+		want = !want
+	}
+	switch x := v.(type) {
+	case *ssa.BinOp:
+		op := x.Op
+		if !want {
+			op = NegateOp(op)
+		}
+		r := Rel{x.X, x.Y, op}
+		return pred(r) || pred(r.Flip())
+	case *ssa.Phi:
+		if depth > 4 {
+			return false
+		}
+		some := false
+		for i, in := range x.Edges {
+			if b, ok := ConstBool(in); ok {
+				if b != want {
+					continue // not a way for v to equal want
+				}
+				// the constant stands for the branch that led here
+				child, p := x.Block(), x.Block().Preds[i]
+				for BlockIf(p) == nil {
+					if len(p.Preds) != 1 {
+						return false
+					}
+					child, p = p, p.Preds[0]
+				}
+				if p.Succs[0] == child && p.Succs[1] == child {
+					return false
+				}
+				if !impliesSome(BlockIf(p).Cond, p.Succs[0] == child, pred, depth+1) {
+					return false
+				}
+				some = true
+				continue
+			}
+			if !impliesSome(in, want, pred, depth+1) {
+				return false
+			}
+			some = true
+		}
+		return some
+	}
+	return false
+}
